@@ -111,3 +111,42 @@ def multiformOp (j : Json) : Json :=
   | _, _, _, _ => jErr "mf: bad arguments"
 
 end Tangelo.Driver
+
+namespace Tangelo.Driver
+open Tangelo.Codec Tangelo.Export Lean
+
+def ionqRecToJson (r : IonqRec) : Json := Json.mkObj ([("gate", Json.str r.gate), ("targets", natListToJson r.targets)] ++
+  (match r.controls with | some c => [("controls", natListToJson c)] | none => []) ++
+  (match r.rotation with | some p => [("rotation", paramToJson p)] | none => []))
+
+def ionqRecOfJson? (j : Json) : Option IonqRec := do
+  let g ← match j.getObjValD "gate" with | .str s => some s | _ => none
+  let t ← getNatList? (j.getObjValD "targets")
+  let c := match j.getObjValD "controls" with | .null => none | jc => getNatList? jc
+  let r := match j.getObjVal? "rotation" with | .ok jr => paramOfJson? jr | .error _ => none
+  pure ⟨g, t, c, r⟩
+
+def pqLineToJson (l : PqLine) : Json := Json.mkObj [("name", Json.str l.name), ("qubits", natListToJson l.qubits),
+  ("param", match l.param with | some p => paramToJson p | none => Json.null)]
+
+def pqLineOfJson? (j : Json) : Option PqLine := do
+  let n ← match j.getObjValD "name" with | .str s => some s | _ => none
+  let q ← getNatList? (j.getObjValD "qubits")
+  let p := match j.getObjValD "param" with | .null => none | jp => paramOfJson? jp
+  pure ⟨n, p, q⟩
+
+/-- {"op":"export","fmt":"ionq"|"projectq","gates":[..]} → records per gate (null = refused) and the gates read back -/
+def exportOp (j : Json) : Json :=
+  match gatesOfJson! (j.getObjValD "gates") with
+  | .error e => jErr e
+  | .ok gs =>
+    if getStr j "fmt" == "ionq" then
+      let recs := gs.map ionqWrite
+      Json.mkObj [("records", Json.arr (recs.map (fun r => match r with | some x => ionqRecToJson x | none => Json.null)).toArray),
+                  ("back", Json.arr (recs.map (fun r => match r.bind ionqRead with | some g => gateToJson g | none => Json.null)).toArray)]
+    else
+      let ls := gs.map pqWrite
+      Json.mkObj [("records", Json.arr (ls.map (fun r => match r with | some x => pqLineToJson x | none => Json.null)).toArray),
+                  ("back", Json.arr (ls.map (fun r => match r.bind pqRead with | some g => gateToJson g | none => Json.null)).toArray)]
+
+end Tangelo.Driver
